@@ -24,6 +24,7 @@ type FuncContract struct {
 	Params   []string // parameter names (trusted/interface contracts; receivers first); filled from the SSA function for /repo contracts
 	Returns  []string
 	Requires []Clause
+	Watch    []Clause // expressions over the entry state evaluated in a counterexample (make models readable, feed replay)
 	Given    []Clause // facts about package tables, assumed at entry and proved by the package's "tables" unit (not callers' obligations)
 	Ensures  []Clause
 	Loops    map[int][]Clause
@@ -43,7 +44,8 @@ type FuncContract struct {
 	Lenient  bool                // calls without contract give fresh results and are listed (safety sweeps)
 	FrameProps []string          // properties the frame obligations are reported under
 	NoFrame  bool                // no default frame obligation (function is allowed to modify anything it reaches)
-	Bounded  string              // name of the bounded stand-in harness for this function, if any
+	Bounded  string              // name of the bounded stand-in harness test for this function, if any
+	Replay   string              // name of the harness test that replays a counterexample of this function
 }
 
 type Update struct {
@@ -64,6 +66,7 @@ type Lemma struct {
 
 type ContractSet struct {
 	ModelFields map[string]string // name -> "KeySort\x00ValSort"
+	ModelFieldUses map[string][]string // name -> preludes that declare the sorts it needs
 	Funcs       map[string]*FuncContract
 	Asserts     []AssertLine // raw SMT assertions placed after all declarations
 	Lemmas      []*Lemma
@@ -88,7 +91,7 @@ func splitNames(s string) []string {
 }
 
 func NewContractSet() *ContractSet {
-	return &ContractSet{Funcs: map[string]*FuncContract{}, ModelFields: map[string]string{}}
+	return &ContractSet{Funcs: map[string]*FuncContract{}, ModelFields: map[string]string{}, ModelFieldUses: map[string][]string{}}
 }
 
 // qualify turns a short function name used in a /repo contract file into the SSA name:
@@ -121,6 +124,14 @@ func (cs *ContractSet) LoadLines(path string, lines []string, lineNos []int, pkg
 	var curLemma *Lemma
 	var filePreludes []string
 	loop := 0
+	lets := map[string]Expr{}
+	parse := func(src string) (Expr, error) {
+		e, err := ParseExpr(src)
+		if err != nil {
+			return nil, err
+		}
+		return substIdents(e, lets), nil
+	}
 	for k, raw := range lines {
 		ln := lineNos[k]
 		line := strings.TrimSpace(raw)
@@ -174,6 +185,17 @@ func (cs *ContractSet) LoadLines(path string, lines []string, lineNos []int, pkg
 			cs.Funcs[cur.Name] = cur
 			curLemma = nil
 			loop = 0
+			lets = map[string]Expr{}
+		case kw == "let": // let name = expr : abbreviation usable in the following clauses of this contract
+			name, ex, ok := strings.Cut(rest, "=")
+			if !ok {
+				return fail(fmt.Errorf("let name = expr"))
+			}
+			pe, err := parse(strings.TrimSpace(ex))
+			if err != nil {
+				return fail(err)
+			}
+			lets[strings.TrimSpace(name)] = pe
 		case kw == "props":
 			if curLemma != nil {
 				curLemma.Props = append(curLemma.Props, splitNames(rest)...)
@@ -200,6 +222,8 @@ func (cs *ContractSet) LoadLines(path string, lines []string, lineNos []int, pkg
 			cur.NoFrame = true
 		case kw == "bounded":
 			cur.Bounded = rest
+		case kw == "replay":
+			cur.Replay = rest
 		case kw == "frame": // frame @C03,C08 : properties the frame obligations are reported under
 			tags, _ := parseTags(rest)
 			cur.FrameProps = tags
@@ -220,16 +244,17 @@ func (cs *ContractSet) LoadLines(path string, lines []string, lineNos []int, pkg
 				return fail(fmt.Errorf("model field %s redeclared with a different sort", parts[0]))
 			}
 			cs.ModelFields[parts[0]] = v
+			cs.ModelFieldUses[parts[0]] = append([]string{}, filePreludes...)
 		case kw == "update": // update Field(key) := value   (value is evaluated before the call)
 			if err := needCur(); err != nil {
 				return err
 			}
 			lhs, rhs, _ := strings.Cut(rest, ":=")
-			le, err := ParseExpr(strings.TrimSpace(lhs))
+			le, err := parse(strings.TrimSpace(lhs))
 			if err != nil {
 				return fail(err)
 			}
-			re, err := ParseExpr(strings.TrimSpace(rhs))
+			re, err := parse(strings.TrimSpace(rhs))
 			if err != nil {
 				return fail(err)
 			}
@@ -243,7 +268,7 @@ func (cs *ContractSet) LoadLines(path string, lines []string, lineNos []int, pkg
 				return err
 			}
 			for _, part := range strings.Split(rest, ";") {
-				pe, err := ParseExpr(strings.TrimSpace(part))
+				pe, err := parse(strings.TrimSpace(part))
 				if err != nil {
 					return fail(err)
 				}
@@ -258,7 +283,7 @@ func (cs *ContractSet) LoadLines(path string, lines []string, lineNos []int, pkg
 			tags, r := parseTags(rest)
 			callee, ex, _ := strings.Cut(r, " ")
 			callee = qualify(pkgOfCallee(pkg, callee), callee)
-			pe, err := ParseExpr(strings.TrimSpace(ex))
+			pe, err := parse(strings.TrimSpace(ex))
 			if err != nil {
 				return fail(err)
 			}
@@ -276,12 +301,12 @@ func (cs *ContractSet) LoadLines(path string, lines []string, lineNos []int, pkg
 			if err != nil {
 				return fail(err)
 			}
-		case kw == "requires" || kw == "ensures" || kw == "invariant" || kw == "given":
+		case kw == "requires" || kw == "ensures" || kw == "invariant" || kw == "given" || kw == "watch":
 			if err := needCur(); err != nil {
 				return err
 			}
 			tags, r := parseTags(rest)
-			e, err := ParseExpr(r)
+			e, err := parse(r)
 			if err != nil {
 				return fail(err)
 			}
@@ -291,6 +316,8 @@ func (cs *ContractSet) LoadLines(path string, lines []string, lineNos []int, pkg
 				cur.Requires = append(cur.Requires, cl)
 			case "given":
 				cur.Given = append(cur.Given, cl)
+			case "watch":
+				cur.Watch = append(cur.Watch, cl)
 			case "ensures":
 				cur.Ensures = append(cur.Ensures, cl)
 			default:
